@@ -111,15 +111,15 @@ def grammar(ctx, rng):
                 for ntr in range(0, 4):
                     trs = list(itertools.product(trailing, repeat=ntr))
                     if len(trs) > 40:
-                        trs = rng.sample(trs, 40 if ctx.quick else 200)
+                        trs = rng.sample(trs, min(len(trs), 40 if ctx.quick else 120))
                     for tr in trs:
                         for c in comp:
                             parts = list(tr)
                             if c:
                                 cv = rng.choice([c, c.upper()])
                                 parts.insert(rng.randint(0, len(parts)), cv)
-                            for pf in (prefixes if ctx.quick is False else rng.sample(prefixes, 2)):
-                                for sf in (suffixes if ctx.quick is False else rng.sample(suffixes, 2)):
+                            for pf in rng.sample(prefixes, 2 if ctx.quick else 3):
+                                for sf in rng.sample(suffixes, 2 if ctx.quick else 3):
                                     if pf and stem and not stem[0].isalnum():
                                         continue
                                     names.append(pf + stem + wv + "".join("." + p for p in parts) + sf)
